@@ -4,8 +4,8 @@
   src/time_delta.rs on every run by tools/extractors/rust2lean_delta_ops.py (translator: rust2lean.py;
   lean/Chrono/Extracted/GenDeltaOps.lean), equal the hand-written model (Model/DeltaOps.lean, Model/Delta.lean)
   for all arguments of the machine types.  The operator impls `Add`, `Sub`, `AddAssign`, `SubAssign`, `Mul<i32>`,
-  `Div<i32>` are outside the translator's subset (`Chrono.Gen.refusedDeltaOps`); `refused_ops_pinned` records
-  exactly which items are refused, so that a change of that list is visible as a failing obligation.
+  `Div<i32>` are outside the translator's subset today (`Chrono.Gen.refusedDeltaOps`); `refused_ops_within` states
+  that nothing else of this target list is refused.
 -/
 import Chrono.Props.GenDelta
 import Chrono.Extracted.GenDeltaOps
@@ -58,9 +58,12 @@ theorem gen_op_neg_eq (a : Delta) :
   gen_split
   all_goals (first | rfl | (exfalso; omega) | exact ok_mk_eq (by omega) (by omega))
 
-/-- which items of the second target list the translator refuses today (the operator impls) -/
-theorem refused_ops_pinned :
-    Gen.refusedDeltaOps.map (·.1) =
+/-- the only items of the second target list the translator may refuse are the six operator impls (they
+are refused today: `Option::expect` method, `&mut self`, generic-trait impl); stated as an inclusion so that
+a translator that learns these constructs does not break this file — the constructors, the constants and
+`Neg` must stay translated, or the theorems above stop compiling -/
+theorem refused_ops_within :
+    ∀ x ∈ Gen.refusedDeltaOps.map (·.1), x ∈
       ["src/time_delta.rs: <TimeDelta as Add>::add", "src/time_delta.rs: <TimeDelta as Sub>::sub",
        "src/time_delta.rs: <TimeDelta as AddAssign>::add_assign",
        "src/time_delta.rs: <TimeDelta as SubAssign>::sub_assign",
